@@ -33,14 +33,14 @@ func TestMain(m *testing.M) { rt.Main(m) }
 // what pat-go's Marshal returns for that object.
 type codec struct {
 	name      string
-	genValue  func(t *rapid.T) []byte                    // reference encoding of a drawn well-formed value
+	genValue  func(t *rapid.T) []byte                     // reference encoding of a drawn well-formed value
 	build     func(t *rapid.T, enc []byte) ([]byte, bool) // pat-go Marshal of the same value built from fields (nil,false if no constructor)
 	decode    func(b []byte) (any, bool)                  // fresh object
 	into      func(obj any, b []byte) bool                // decode into an existing object (request types), nil otherwise
 	newObj    func() any
 	canonical func(obj any, accepted []byte) ([]byte, error) // canonical encoding of the decoded value
-	marshal   func(obj any) []byte                       // obj.Marshal(), nil if the structure has none
-	fields    []int                                      // offsets of tag/length fields (mutation hints)
+	marshal   func(obj any) []byte                           // obj.Marshal(), nil if the structure has none
+	fields    []int                                          // offsets of tag/length fields (mutation hints)
 }
 
 func fixedLen(name string, b []byte, n int) error {
@@ -97,7 +97,7 @@ var codecs = []codec{
 			if rapid.Bool().Draw(t, "hasNonce") {
 				nonce = gen.Bytes32().Draw(t, "nonce")
 			} else if rapid.IntRange(0, 3).Draw(t, "odd") == 0 {
-				nonce = rapid.SliceOfN(rapid.Byte(), 0, 32).Draw(t, "oddnonce")
+				nonce = gen.Bytes(t, 0, 32, "oddnonce")
 			}
 			return ref.EncodeChallenge(typ, issuer, nonce, originList().Draw(t, "origins"))
 		},
@@ -180,7 +180,7 @@ var codecs = []codec{
 				n = 65535
 			}
 			ct := bytes.Repeat([]byte{rapid.Byte().Draw(t, "fill")}, n)
-			copy(ct, rapid.SliceOfN(rapid.Byte(), 0, 40).Draw(t, "cthead"))
+			copy(ct, gen.Bytes(t, 0, 40, "cthead"))
 			return ref.EncodeRateLimitedRequest(rapid.SliceOfN(rapid.Byte(), 49, 49).Draw(t, "rk"), gen.Bytes32().Draw(t, "nkid"), ct,
 				rapid.SliceOfN(rapid.Byte(), 96, 96).Draw(t, "sig"))
 		},
@@ -224,7 +224,7 @@ var codecs = []codec{
 				els[i] = bytes.Repeat([]byte{fill + byte(i)}, 32)
 			}
 			if n > 0 {
-				copy(els[0], rapid.SliceOfN(rapid.Byte(), 0, 32).Draw(t, "el0"))
+				copy(els[0], gen.Bytes(t, 0, 32, "el0"))
 			}
 			return ref.EncodeBatchedPrivateRequest(rapid.Byte().Draw(t, "kid"), els)
 		},
@@ -603,7 +603,9 @@ func TestReuse(t *testing.T) {
 				if !bytes.Equal(prev, can) {
 					s.Nontrivial(prev, next)
 				}
-				s.Sample(func() any { return map[string]any{"prev": rt.Hex(prev), "next": rt.Hex(next), "marshalFirst": callMarshal} })
+				s.Sample(func() any {
+					return map[string]any{"prev": rt.Hex(prev), "next": rt.Hex(next), "marshalFirst": callMarshal}
+				})
 			})
 		})
 	}
